@@ -147,4 +147,53 @@ def nameRecords (bl : List Nat) : Option (List NameRec) :=
         else some l) (some [])
   | _, _ => none
 
+/-! ### script list -/
+
+/-- One language system as an independent reader sees it. -/
+structure LangSysRec where
+  script : List Nat      -- 4 tag bytes
+  lang : List Nat        -- 4 tag bytes, `[]` for the default language system
+  required : Nat
+  features : List Nat
+
+def wordsAt (bs : Array Nat) (pos n : Nat) : Option (List Nat) :=
+  (List.range n).mapM fun i => word bs (pos + 2 * i)
+
+def tagAt (bs : Array Nat) (pos : Nat) : Option (List Nat) :=
+  (List.range 4).mapM fun i => bs[pos + i]?
+
+/-- OpenType, chapter 2: "LangSys table: Offset16 lookupOrderOffset (reserved, NULL); uint16
+requiredFeatureIndex (0xFFFF if none); uint16 featureIndexCount; uint16 featureIndices[]". -/
+def langSysAt (bs : Array Nat) (pos : Nat) : Option (Nat × List Nat) := do
+  let req ← word bs (pos + 2)
+  let n ← word bs (pos + 4)
+  let fs ← wordsAt bs (pos + 6) n
+  pure (req, fs)
+
+/-- OpenType, chapter 2: GSUB/GPOS header "uint16 majorVersion, minorVersion; Offset16
+scriptListOffset, …"; "ScriptList table: uint16 scriptCount; ScriptRecord {Tag scriptTag;
+Offset16 scriptOffset — from beginning of ScriptList}"; "Script table: Offset16
+defaultLangSysOffset (may be NULL); uint16 langSysCount; LangSysRecord {Tag langSysTag; Offset16
+langSysOffset — from beginning of Script table}".  All language systems, in table order. -/
+def scriptListOf (bl : List Nat) : Option (List LangSysRec) := do
+  let bs := bl.toArray
+  let slo ← word bs 4
+  let sc ← word bs slo
+  let per ← (List.range sc).mapM fun i => do
+    let stag ← tagAt bs (slo + 2 + 6 * i)
+    let so ← word bs (slo + 2 + 6 * i + 4)
+    let st := slo + so
+    let dflt ← word bs st
+    let lc ← word bs (st + 2)
+    let dl ← if dflt = 0 then pure [] else do
+      let (req, fs) ← langSysAt bs (st + dflt)
+      pure [(⟨stag, [], req, fs⟩ : LangSysRec)]
+    let ls ← (List.range lc).mapM fun j => do
+      let ltag ← tagAt bs (st + 4 + 6 * j)
+      let lo ← word bs (st + 4 + 6 * j + 4)
+      let (req, fs) ← langSysAt bs (st + lo)
+      pure (⟨stag, ltag, req, fs⟩ : LangSysRec)
+    pure (dl ++ ls)
+  pure per.flatten
+
 end SfntV.Names.Spec
